@@ -4,3 +4,4 @@ import Props.C04
 import Props.C06
 import Props.C07
 import Props.C03
+import Props.C05
